@@ -1305,6 +1305,9 @@ static int cfg_parse_internal(cfg_t *cfg, int level, int force_state, cfg_opt_t 
 		opt = force_opt;
 
 	while (1) {
+#ifdef LIBCONFUSE_VERIF
+		LIBCONFUSE_VERIF_PARSE_STEP();
+#endif
 		int tok = cfg_yylex(cfg);
 
 		if (tok == 0) {
